@@ -17,7 +17,7 @@ Fixpoint size (v : pval) : nat :=
   | PSeq _ _ _ _ _ l => S (sum_map (fun x => size x) l)
   | PDict _ _ _ l => (2 + sum_map (fun kv => size (snd kv)) l)%nat
   | PDefDict _ _ _ f l => (3 + size f + sum_map (fun kv => size (snd kv)) l)%nat
-  | PObjArr _ _ _ _ l => S (sum_map (fun x => size x) l)
+  | PObjArr _ _ _ _ l => (3 + sum_map (fun x => size x) l)%nat
   | PMasked _ _ _ d k => S (size d + size k)
   | PRandState _ _ _ x => S (size x)
   | PRandGen _ _ _ x y => S (size x + size y)
@@ -90,6 +90,30 @@ Proof.
   destruct (rec extra (SKey name k) m j) as [[n m1]|]; [|reflexivity]. cbn [bind]. rewrite IH. reflexivity.
 Qed.
 
+(* get_state(obj.tolist()) of a rank-1 object array: one fresh list around the states of the cells *)
+Lemma tolist_rank1 (f : pval -> clo) cells : forall st,
+  tolist_state [length cells] (map f cells) st
+  = let (lid, st0) := fresh st in
+    do (js, st1) <- states_of f cells st0; Ok (list_state js lid, [], st1).
+Proof.
+  intros st. cbn [tolist_state]. destruct (fresh st) as [lid st0].
+  match goal with |- context [(fix rep (n : nat) (cs : list clo) (st : dst) {struct n} := _)] =>
+    set (rep := (fix rep (n : nat) (cs : list clo) (st : dst) {struct n} : res (list json * list clo * dst) := _)) end.
+  assert (Hrep : forall cells st0, rep (length cells) (map f cells) st0
+                 = do (js, st1) <- states_of f cells st0; Ok (js, [], st1)).
+  { clear. induction cells as [|x cells IH]; intros st0; [reflexivity|].
+    cbn [length map states_of]. unfold rep at 1. cbn [tolist_state]. fold rep.
+    destruct (f x st0) as [[j st1]|]; [|reflexivity]. cbn [bind]. rewrite IH.
+    destruct (states_of f cells st1) as [[js st2]|]; reflexivity. }
+  rewrite Hrep. destruct (states_of f cells st0) as [[js st1]|]; reflexivity.
+Qed.
+(* get_state(obj.shape) of a rank-1 array whose length is a cached small int: one fresh tuple around the int *)
+Lemma shape_state_small n st : is_small_int n = true ->
+  shape_state [n] st
+  = (node_state (CodecDump.K "tuple") (CodecDump.K "builtins") (CodecDump.K "TupleNode")
+       [(CodecDump.K "content", JArr [json_state (show_Z n) (small_int_base + n)])] (d_next st), snd (fresh st)).
+Proof. intros H. unfold shape_state, fresh. cbn [shape_items]. unfold int_obj. rewrite H. reflexivity. Qed.
+
 (* the facts about classes are consistent with what the builtin container names denote *)
 Definition sane_names : list pstr :=
   [s "builtins.list"; s "builtins.tuple"; s "builtins.set"; s "builtins.dict"; s "collections.OrderedDict"; s "collections.defaultdict"].
@@ -110,7 +134,9 @@ Section Share.
   Hypothesis HC : c_namedtuples C = f_namedtuples F /\ c_missing C = f_missing F.
   Hypothesis Hsane : facts_sane F = true.
   (* the file table and the member list of the archive being loaded *)
-  Hypothesis HFone : forall h x1 x2, In (h, x1) files -> In (h, x2) files -> x1 = x2.
+  (* every file name recorded for one id names the same content (a bytes object met twice was written twice) *)
+  Definition fblob (x : json) : option blob := match x with JStr f => dget f (c_members C) | _ => None end.
+  Hypothesis HFone : forall h x1 x2, In (h, x1) files -> In (h, x2) files -> fblob x1 = fblob x2.
   Hypothesis HEC : e_members E = map fst (c_members C).
   Hypothesis HCg : c_generic C = f_generic F.
   Let proto : json := JInt (e_cur E).
@@ -211,26 +237,41 @@ Section Share.
     | _ => None
     end.
   (* every member written so far belongs to an object of the value or to a dtype carrier array *)
+  (* bytes / bytearray: the member is named by the uuid counter, not by the id *)
+  Definition obytes (w : pval) : option pstr := match w with PBytes _ _ _ _ tok => Some tok | _ => None end.
   Definition MOK (st : dst) : Prop :=
     forall f b, dget f (d_members st) = Some b ->
-      (exists w, Objs w /\ ofile w = Some (f, b)) \/ (exists i, (base <= i < d_next st)%Z /\ f = npy_name i).
-  (* every entry of the file table of j names the member of the object carrying the id *)
-  Definition FTd (j : json) : Prop :=
+      (exists w, Objs w /\ ofile w = Some (f, b)) \/ (exists i, (base <= i < d_next st)%Z /\ f = npy_name i)
+      \/ (exists n, (n < d_uuid st)%N /\ f = uuid_name n).
+  (* every entry of the file table of j names the member of the object carrying the id; a bytes object has one entry
+     per occurrence, each naming a member (among ms, provided P) with the content of the object *)
+  Definition FTd (P : Prop) (ms : list (pstr * blob)) (j : json) : Prop :=
     forall h x, In (h, x) (file_table j) ->
       exists i, h = key i /\ ((exists w f b, Objs w /\ pid w = i /\ ofile w = Some (f, b) /\ x = JStr f)
-                              \/ ((base <= i)%Z /\ x = JStr (npy_name i))).
+                              \/ ((base <= i)%Z /\ x = JStr (npy_name i))
+                              \/ (exists w tok n, Objs w /\ pid w = i /\ obytes w = Some tok /\ x = JStr (uuid_name n)
+                                                  /\ (P -> dget (uuid_name n) ms = Some (MBin, tok)))).
   Definition Post (st : dst) (j : json) (st' : dst) : Prop :=
-    lk_incl (d_members st) (d_members st') /\ FTd j /\ (MOK st -> MOK st').
+    lk_incl (d_members st) (d_members st') /\ FTd (MOK st) (d_members st') j /\ (MOK st -> MOK st').
   Definition Pre (st : dst) (j : json) (st' : dst) : Prop :=
     MOK st /\ lk_incl (d_members st') (c_members C) /\ incl (file_table j) files.
 
-  Lemma FTd_nil j : file_table j = [] -> FTd j.
+  Lemma FTd_nil P ms j : file_table j = [] -> FTd P ms j.
   Proof. intros H h x Hin. rewrite H in Hin. destruct Hin. Qed.
+  Lemma FTd_mono (P P' : Prop) ms ms' j : (P' -> P) -> lk_incl ms ms' -> FTd P ms j -> FTd P' ms' j.
+  Proof.
+    intros HP Hlk H h x Hin. destruct (H h x Hin) as [i [Hk [A|[A|[w [tok [n [Hw [Hp [Ho [Hx Hd]]]]]]]]]]]; exists i; (split; [exact Hk|]).
+    - left. exact A.
+    - right. left. exact A.
+    - right. right. exists w, tok, n. repeat split; try assumption. intros HP'. apply Hlk. apply Hd. apply HP. exact HP'.
+  Qed.
   Lemma Post_same st j : file_table j = [] -> Post st j st.
   Proof. intros H. split; [apply lk_refl|]. split; [apply FTd_nil; exact H|auto]. Qed.
-  Lemma MOK_next st st' : d_members st' = d_members st -> (d_next st <= d_next st')%Z -> MOK st -> MOK st'.
+  Lemma MOK_next st st' : d_members st' = d_members st -> (d_next st <= d_next st')%Z -> (d_uuid st <= d_uuid st')%N -> MOK st -> MOK st'.
   Proof.
-    intros Hm Hn H f b Hd. rewrite Hm in Hd. destruct (H f b Hd) as [Hw|[i [Hi Hf]]]; [left; exact Hw|right]. exists i. split; [lia|exact Hf].
+    intros Hm Hn Hu H f b Hd. rewrite Hm in Hd. destruct (H f b Hd) as [Hw|[[i [Hi Hf]]|[n [Hi Hf]]]]; [left; exact Hw|right; left|right; right].
+    - exists i. split; [lia|exact Hf].
+    - exists n. split; [lia|exact Hf].
   Qed.
 
   Definition notleaf (n : node) : bool := match n with Leaf _ _ => false | _ => true end.
@@ -296,7 +337,7 @@ Section Share.
   Qed.
 
   Definition PostL (st : dst) (js : list json) (st' : dst) : Prop :=
-    lk_incl (d_members st) (d_members st') /\ (forall j, In j js -> FTd j) /\ (MOK st -> MOK st').
+    lk_incl (d_members st) (d_members st') /\ (forall j, In j js -> FTd (MOK st) (d_members st') j) /\ (MOK st -> MOK st').
   Definition PreL (st : dst) (js : list json) (st' : dst) : Prop :=
     MOK st /\ lk_incl (d_members st') (c_members C) /\ (forall j, In j js -> incl (file_table j) files).
 
@@ -320,7 +361,9 @@ Section Share.
       destruct (IH _ _ _ E1 ltac:(lia)) as [Hl2 [Hn2 [Hlen2 [[Hlk2 [Hft2 Hmok2]] IH1]]]].
       split; [congruence|]. split; [lia|]. split; [cbn [length]; congruence|].
       split.
-      { split; [eapply lk_trans; eauto|]. split; [intros j0 [<-|Hj]; auto|auto]. }
+      { split; [eapply lk_trans; eauto|]. split; [|auto]. intros j0 [<-|Hj].
+        - eapply FTd_mono; [|exact Hlk2|exact Hft1]. auto.
+        - eapply FTd_mono; [exact Hmok1|apply lk_refl|exact (Hft2 j0 Hj)]. }
       intros fuel m sls Hn Hm Hlen [Hmok [Hlkc Hfiles]].
       destruct sls as [|sl sls]; [discriminate Hlen|]. cbn [length] in Hlen. cbn [combine sub_gen].
       destruct (Hx1 fuel m sl (Hn _ (or_introl eq_refl)) Hm) as [n [m1 [Hg [Hsl [Hnl [Hmo [Hgr [Hlt [Hsp Hal]]]]]]]]].
@@ -783,10 +826,10 @@ Section Share.
       replace (flat_map file_table kts) with (@nil (hkey * json)); [rewrite !app_nil_r; reflexivity|].
       symmetry. pose proof (kts_no_files _ _ Hkts) as Hk0. clear -Hk0. induction kts as [|j0 kts IH]; [reflexivity|]. cbn [flat_map].
       rewrite (Hk0 j0 (or_introl eq_refl)). apply IH. intros j1 Hj1. apply Hk0. right. exact Hj1. }
-    assert (Hmok0 : MOK st -> MOK st0) by (intros Hm0; apply (MOK_next st st0); [reflexivity|unfold st0; cbn [d_next]; lia|exact Hm0]).
+    assert (Hmok0 : MOK st -> MOK st0) by (intros Hm0; apply (MOK_next st st0); [reflexivity|unfold st0; cbn [d_next]; lia|unfold st0; cbn [d_uuid]; lia|exact Hm0]).
     split.
     { split; [exact HLlk|]. split; [|auto]. intros h x Hin. rewrite Hftj in Hin. apply in_flat_map in Hin. destruct Hin as [j0 [Hj0 Hin]].
-      exact (HLft j0 Hj0 h x Hin). }
+      exact (FTd_mono _ _ _ _ _ Hmok0 (lk_refl _) (HLft j0 Hj0) h x Hin). }
     intros fuel m sl Hn Hm Hmem [HpMOK [HpLk HpF]]. cbn [need v] in Hn. destruct fuel as [|fuel]; [lia|].
     set (j := dict_state c mo cont kts (d_next st) id).
     assert (Hbd : forall rec, build E rec sl [] (s "_general.DictNode") KDict m j
@@ -923,9 +966,9 @@ Section Share.
     destruct (content_of _ items [] st0') as [[cont st1]|] eqn:Ec; [|discriminate]. cbn [bind] in H.
     destruct (get_state D f st1) as [[fac st']|] eqn:Ef; [|discriminate]. cbn [bind] in H. injection H as <- <-.
     pose proof (Oid _ Hv) as Hid. cbn [pid] in Hid.
-    assert (Hd : did = d_next st /\ d_next st0 = (d_next st + 1)%Z /\ d_late st0 = d_late st /\ d_members st0 = d_members st).
-    { unfold fresh in Hfr0. injection Hfr0 as <- <-. cbn. auto. }
-    destruct Hd as [-> [Hn0 [Hl0 Hmem0]]].
+    assert (Hd : did = d_next st /\ d_next st0 = (d_next st + 1)%Z /\ d_late st0 = d_late st /\ d_members st0 = d_members st /\ d_uuid st0 = d_uuid st).
+    { unfold fresh in Hfr0. injection Hfr0 as <- <-. cbn. repeat split; reflexivity. }
+    destruct Hd as [-> [Hn0 [Hl0 [Hmem0 Hu0]]]].
     set (main := PDict (d_next st) (s "builtins") (s "dict") items).
     assert (Hy1 : Objs main \/ (base <= d_next st)%Z) by (right; lia).
     assert (Hy2 : (0 < d_next st)%Z) by lia.
@@ -943,10 +986,12 @@ Section Share.
                    = file_table (dict_state (CodecDump.K "dict") (CodecDump.K "builtins") cont kts ktid (d_next st)) ++ file_table fac).
     { unfold jd. rewrite ft_node_state by reflexivity. cbn [dget flat_map snd app]. change (pstr_eqb (s "file") (CodecDump.K "content")) with false. cbn iota.
       rewrite file_table_obj. cbn [flat_map snd app]. rewrite !app_nil_r. reflexivity. }
-    assert (Hmok0 : MOK st -> MOK st0) by (intros Hm0; apply (MOK_next st st0); [exact Hmem0|lia|exact Hm0]).
+    assert (Hmok0 : MOK st -> MOK st0) by (intros Hm0; apply (MOK_next st st0); [exact Hmem0|lia|lia|exact Hm0]).
     assert (Hpost : Post st jd st').
     { split; [rewrite <- Hmem0; eapply lk_trans; eauto|]. split; [|auto].
-      intros h x Hin. rewrite Hftj in Hin. apply in_app_or in Hin. destruct Hin as [Hin|Hin]; [exact (Hft1 h x Hin)|exact (Hft2 h x Hin)]. }
+      intros h x Hin. rewrite Hftj in Hin. apply in_app_or in Hin. destruct Hin as [Hin|Hin].
+      - exact (FTd_mono _ _ _ _ _ Hmok0 Hlk2 Hft1 h x Hin).
+      - exact (FTd_mono _ _ _ _ _ (fun H0 => Hmok1 (Hmok0 H0)) (lk_refl _) Hft2 h x Hin). }
     split; [exact Hpost|].
     intros fuelq mq slq Hnq Hmq [HpMOK [HpLk HpF0]]. revert fuelq mq slq Hnq Hmq.
     assert (HpF : incl (file_table jd) files) by exact HpF0.
@@ -1064,26 +1109,32 @@ Section Share.
   (* ---- leaves that own a zip member named after their id: arrays, numpy scalars, sparse matrices ---- *)
   Lemma member_present st f b : MOK st -> has_member f st = true ->
     (forall w, Objs w -> ofile w = Some (f, b) \/ (forall b', ofile w <> Some (f, b'))) ->
-    (forall i, (base <= i)%Z -> f <> npy_name i) ->
+    (forall i, (base <= i)%Z -> f <> npy_name i) -> (forall n, f <> uuid_name n) ->
     (exists w, Objs w /\ ofile w = Some (f, b)) -> dget f (d_members st) = Some b.
   Proof.
-    intros Hmok Hhas Hdet Htmp _. unfold has_member in Hhas. destruct (dget_mem _ _ Hhas) as [b0 Hd]. rewrite Hd. f_equal.
-    destruct (Hmok f b0 Hd) as [[w [Hw Ho]]|[i [Hi Hf]]].
+    intros Hmok Hhas Hdet Htmp Hu _. unfold has_member in Hhas. destruct (dget_mem _ _ Hhas) as [b0 Hd]. rewrite Hd. f_equal.
+    destruct (Hmok f b0 Hd) as [[w [Hw Ho]]|[[i [Hi Hf]]|[n [_ Hf]]]].
     - destruct (Hdet w Hw) as [H|H]; [congruence|]. exfalso. exact (H _ Ho).
     - exfalso. apply (Htmp i); [lia|exact Hf].
+    - exfalso. exact (Hu n Hf).
   Qed.
 
-  Lemma in_files_lookup i f : In (key i, JStr f) files -> hk_get (key i) files = Some (JStr f).
-  Proof. intros Hin. destruct (hk_get_in _ _ _ Hin) as [y [Hy Hiny]]. rewrite Hy. f_equal. exact (HFone _ _ _ Hiny Hin). Qed.
+  (* whichever of the names recorded for the id the loader picks (the first), the content is the same *)
+  Lemma read_blob_ok h i f b : h_id h = Some (key i) -> In (key i, JStr f) files -> dget f (c_members C) = Some b ->
+    read_blob C files h = Ok b.
+  Proof.
+    intros Hh Hin Hd. unfold read_blob. rewrite Hh. destruct (hk_get_in _ _ _ Hin) as [y [Hy Hiny]]. rewrite Hy.
+    pose proof (HFone _ _ _ Hiny Hin) as He. unfold fblob in He. rewrite Hd in He. destruct y; try discriminate He. rewrite He. reflexivity.
+  Qed.
 
   Lemma mok_write st f b : MOK st -> ((exists w, Objs w /\ ofile w = Some (f, b)) \/ (exists i, (base <= i < d_next st)%Z /\ f = npy_name i)) ->
     MOK (if has_member f st then st else write_member f b st).
   Proof.
-    intros Hmok Hnew. destruct (has_member f st) eqn:Hh; [exact Hmok|]. intros f' b' Hd. unfold write_member in Hd. cbn [d_members d_next] in *.
+    intros Hmok Hnew. destruct (has_member f st) eqn:Hh; [exact Hmok|]. intros f' b' Hd. unfold write_member in Hd |- *. cbn [d_members d_next d_uuid] in *.
     destruct (dget f' (d_members st)) as [b0|] eqn:E0.
     - rewrite (dget_app_l _ _ _ _ E0) in Hd. injection Hd as <-. exact (Hmok _ _ E0).
     - rewrite (dget_app_none _ _ _ E0) in Hd. cbn [dget] in Hd. destruct (pstr_eqb f' f) eqn:Eq; [|discriminate].
-      apply pstr_eqb_eq in Eq. subst f'. injection Hd as <-. exact Hnew.
+      apply pstr_eqb_eq in Eq. subst f'. injection Hd as <-. destruct Hnew as [Hnew|Hnew]; [left; exact Hnew|right; left; exact Hnew].
   Qed.
   Lemma lk_write st f b : lk_incl (d_members st) (d_members (if has_member f st then st else write_member f b st)).
   Proof. destruct (has_member f st); [apply lk_refl|]. unfold write_member. cbn [d_members]. apply lk_app. Qed.
@@ -1116,13 +1167,14 @@ Section Share.
     assert (HpF : incl (file_table jv) files) by exact HpF0.
     assert (Hk1 : dget f (d_members st') = Some b).
     { unfold st'. destruct (has_member f st) eqn:Hh; [|apply dget_write; exact Hh].
-      apply (member_present st f b HpMOK Hh); [| |exact Hown].
+      apply (member_present st f b HpMOK Hh); [| | |exact Hown].
       - intros w Hw. destruct w; try (right; intros b' Hb'; discriminate Hb'); cbn [ofile].
         + destruct (Z.eq_dec id0 id) as [->|Hne].
           * left. assert (Heq : PArr id gen0 m c0 tok0 = v) by (apply Ofun; auto). injection Heq as -> -> -> ->. reflexivity.
           * right. intros b' Hb'. injection Hb' as Hb' _. apply npy_inj in Hb'. contradiction.
         + right. intros b' Hb'. injection Hb' as Hb' _. symmetry in Hb'. exact (npy_npz _ _ Hb').
-      - intros i Hi Hf. apply npy_inj in Hf. lia. }
+      - intros i Hi Hf. apply npy_inj in Hf. lia.
+      - intros n Hf. exact (npy_uuid _ _ Hf). }
     assert (Hk2 : dget f (c_members C) = Some b) by (apply HpLk; exact Hk1).
     change (forall fuel m sl, (need v <= fuel)%nat -> memo_lt m (d_next st) ->
               exists n m', get_tree fuel E proto [] sl m (node_state c mo (CodecDump.K "NdArrayNode")
@@ -1148,8 +1200,8 @@ Section Share.
     { intros R _ _ _ cf Hcf. destruct cf as [|cf]; [pose proof (need_pos v); lia|]. cbn [construct_val].
       unfold cbody, hd, set_aux, mkh. cbn [h_kind h_aux h_id h_module h_class h_slot h_tag h_extra].
       change (jstr_eqb (JStr (GetTree.K "numpy")) (s "numpy")) with true. cbn iota.
-      unfold read_blob. cbn [h_id]. rewrite (in_files_lookup id f) by (apply HpF; rewrite Hft; left; reflexivity).
-      rewrite Hk2. cbn [bind h_module h_class jstr snd b].
+      rewrite (read_blob_ok _ id f b) by (try reflexivity; try exact Hk2; apply HpF; rewrite Hft; left; reflexivity).
+      cbn [bind h_module h_class jstr snd b].
       assert (Hnid : nid {| h_slot := sl; h_kind := KNdArray; h_tag := s "_numpy.NdArrayNode"; h_id := Some (key id); h_extra := [];
                             h_class := JStr c; h_module := JStr mo; h_aux := JStr (GetTree.K "numpy") |} = id).
       { unfold nid, key. cbn [h_id]. apply key_div. }
@@ -1192,13 +1244,14 @@ Section Share.
     assert (HpF : incl (file_table jv) files) by exact HpF0.
     assert (Hk1 : dget f (d_members st') = Some b).
     { unfold st'. destruct (has_member f st) eqn:Hh; [|apply dget_write; exact Hh].
-      apply (member_present st f b HpMOK Hh); [| |exact Hown].
+      apply (member_present st f b HpMOK Hh); [| | |exact Hown].
       - intros w Hw. destruct w; try (right; intros b' Hb'; discriminate Hb'); cbn [ofile].
         + right. intros b' Hb'. injection Hb' as Hb' _. exact (npy_npz _ _ Hb').
         + destruct (Z.eq_dec id0 id) as [->|Hne].
           * left. assert (Heq : PSparse id m c0 tok0 = v) by (apply Ofun; auto). injection Heq as -> -> ->. reflexivity.
           * right. intros b' Hb'. injection Hb' as Hb' _. apply npz_inj in Hb'. contradiction.
-      - intros i Hi Hf. symmetry in Hf. exact (npy_npz _ _ Hf). }
+      - intros i Hi Hf. symmetry in Hf. exact (npy_npz _ _ Hf).
+      - intros n Hf. exact (npz_uuid _ _ Hf). }
     assert (Hk2 : dget f (c_members C) = Some b) by (apply HpLk; exact Hk1).
     change (forall fuel m sl, (need v <= fuel)%nat -> memo_lt m (d_next st) ->
               exists n m', get_tree fuel E proto [] sl m (node_state c mo (CodecDump.K "SparseMatrixNode")
@@ -1223,8 +1276,8 @@ Section Share.
     assert (Hspn : SpecN (Node hd [Leaf (SOne (GetTree.K "content")) LBytes]) v m).
     { intros R _ _ _ cf Hcf. destruct cf as [|cf]; [pose proof (need_pos v); lia|]. cbn [construct_val].
       unfold cbody, hd, set_aux, mkh. cbn [h_kind h_aux h_id h_module h_class h_slot h_tag h_extra].
-      unfold read_blob. cbn [h_id]. rewrite (in_files_lookup id f) by (apply HpF; rewrite Hft; left; reflexivity).
-      rewrite Hk2. cbn [bind h_module h_class jstr snd b]. unfold nid, key. cbn [h_id]. rewrite key_div. reflexivity. }
+      rewrite (read_blob_ok _ id f b) by (try reflexivity; try exact Hk2; apply HpF; rewrite Hft; left; reflexivity).
+      cbn [bind h_module h_class jstr snd b]. unfold nid, key. cbn [h_id]. rewrite key_div. reflexivity. }
     unfold Res. cbn [node_slot notleaf]. repeat split.
     - apply mono_cons.
     - intros h Hh. cbn [memo_mem] in Hh. apply orb_prop in Hh. destruct Hh as [Hh|Hh]; [|left; exact Hh].
@@ -1235,6 +1288,78 @@ Section Share.
       intros x [<-|[]]. apply allok_leaf.
   Qed.
 
+  (* ---- bytes / bytearray: every occurrence writes its own member u<n>.bin (n the uuid counter); the node is built from
+     the member of the first occurrence, later occurrences are references to that node ---- *)
+  Definition bytes_loader (ba : bool) : pstr := if ba then CodecDump.K "BytearrayNode" else CodecDump.K "BytesNode".
+  Definition bytes_tag (ba : bool) : pstr := if ba then s "_general.BytearrayNode" else s "_general.BytesNode".
+  Definition bytes_kind (ba : bool) : kind := if ba then KBytearray else KBytes.
+
+  Lemma bytes_Q id ba mo c tok : Objs (PBytes id ba mo c tok) -> resolvable F mo c = true -> Q (PBytes id ba mo c tok).
+  Proof.
+    intros Hv Hr st j st1 H Hb. cbn [get_state] in H. destruct (fresh_uuid st) as [u st0] eqn:Hfr.
+    change (if ba then CodecDump.K "BytearrayNode" else CodecDump.K "BytesNode") with (bytes_loader ba) in H. injection H as <- <-.
+    assert (Hd : u = d_uuid st /\ d_next st0 = d_next st /\ d_late st0 = d_late st /\ d_members st0 = d_members st /\ d_uuid st0 = (d_uuid st + 1)%N).
+    { unfold fresh_uuid in Hfr. injection Hfr as <- <-. cbn. repeat split; reflexivity. }
+    destruct Hd as [-> [Hn0 [Hl0 [Hmem0 Hu0]]]]. set (u := d_uuid st).
+    set (v := PBytes id ba mo c tok). set (f := uuid_name u). set (b := (MBin, tok)).
+    set (st' := write_member f b st0).
+    pose proof (Oid _ Hv) as Hid. cbn [pid] in Hid.
+    assert (Hnext : d_next st' = d_next st) by exact Hn0.
+    assert (Hlate : d_late st' = d_late st) by exact Hl0.
+    assert (Hmem' : d_members st' = d_members st ++ [(f, b)]) by (unfold st', write_member; cbn [d_members]; rewrite Hmem0; reflexivity).
+    split; [exact Hlate|]. split; [lia|].
+    set (jv := node_state c mo (bytes_loader ba) [(CodecDump.K "file", JStr f)] id).
+    assert (Hft : file_table jv = [(key id, JStr f)]) by (unfold jv; rewrite ft_node_state by reflexivity; reflexivity).
+    (* the uuid counter has not been used for a member name yet *)
+    assert (Hnew : MOK st -> dget f (d_members st) = None).
+    { intros Hmok. destruct (dget f (d_members st)) as [b0|] eqn:E0; [|reflexivity]. exfalso.
+      destruct (Hmok f b0 E0) as [[w [Hw Ho]]|[[i [Hi Hf]]|[n [Hi Hf]]]].
+      - destruct w; try discriminate Ho; cbn [ofile] in Ho; injection Ho as Ho _.
+        + exact (npy_uuid _ _ Ho).
+        + exact (npz_uuid _ _ Ho).
+      - symmetry in Hf. exact (npy_uuid _ _ Hf).
+      - apply uuid_inj in Hf. unfold u in Hf. lia. }
+    assert (Hk1 : MOK st -> dget f (d_members st') = Some b).
+    { intros Hmok. rewrite Hmem'. apply dget_app_new. apply Hnew. exact Hmok. }
+    assert (Hpost : Post st jv st').
+    { split; [rewrite Hmem'; apply lk_app|]. split.
+      - intros h x Hin. rewrite Hft in Hin. destruct Hin as [Hin|[]]. injection Hin as <- <-. exists id. split; [reflexivity|]. right. right.
+        exists v, tok, u. repeat split; try assumption; reflexivity.
+      - intros Hmok f' b' Hd. rewrite Hmem' in Hd. unfold st', write_member. cbn [d_next d_uuid]. rewrite Hn0, Hu0.
+        destruct (dget f' (d_members st)) as [b0|] eqn:E0.
+        + rewrite (dget_app_l _ _ _ _ E0) in Hd. injection Hd as <-.
+          destruct (Hmok _ _ E0) as [Hw|[Hc|[n [Hi Hf]]]]; [left; exact Hw|right; left; exact Hc|right; right].
+          exists n. split; [lia|exact Hf].
+        + rewrite (dget_app_none _ _ _ E0) in Hd. cbn [dget] in Hd. destruct (pstr_eqb f' f) eqn:Eq; [|discriminate].
+          apply pstr_eqb_eq in Eq. subst f'. right. right. exists u. split; [unfold u; lia|reflexivity]. }
+    split; [exact Hpost|].
+    intros fuelq mq slq Hnq Hmq [HpMOK [HpLk HpF0]]. revert fuelq mq slq Hnq Hmq.
+    assert (HpF : incl (file_table jv) files) by exact HpF0.
+    assert (Hk2 : dget f (c_members C) = Some b) by (apply HpLk; apply Hk1; exact HpMOK).
+    assert (Hrm : read_member E (JStr f) = Ok tt).
+    { unfold read_member. rewrite HEC. replace (mem f (map fst (c_members C))) with true; [reflexivity|].
+      symmetry. apply mem_In. eapply dget_in_fst; eauto. }
+    change id with (pid v). unfold jv.
+    apply (leaf_Q v c mo (bytes_loader ba) [(CodecDump.K "file", JStr f)] (bytes_tag ba) (bytes_kind ba) (fun h => h)
+             [Leaf (SOne (GetTree.K "content")) LBytes] st' Hv); try reflexivity; try lia.
+    - destruct ba; cbn; tauto.
+    - destruct ba; reflexivity.
+    - intros h. split; reflexivity.
+    - intros x [<-|[]]; eauto.
+    - intros rec sl m. destruct ba; unfold build, bytes_kind, bytes_tag; (destruct (node_init _ _ _ _ _ _ _ _) as [[h m0]|]; [|reflexivity]); cbn [bind];
+        match goal with |- context [jindex ?j0 (GetTree.K "file")] => change (jindex j0 (GetTree.K "file")) with (Ok (A:=json) (JStr f)) end;
+        cbn [bind]; rewrite Hrm; reflexivity.
+    - intros R cf sl. unfold cbody. cbn [h_kind mkh].
+      assert (Hrb : forall k0 tg, read_blob C files (mkh sl k0 tg (pid v) c mo JNull) = Ok b).
+      { intros k0 tg. apply (read_blob_ok _ id f b); [reflexivity| |exact Hk2]. apply HpF. rewrite Hft. left. reflexivity. }
+      unfold resolvable in Hr. apply andb_prop in Hr. destruct Hr as [Hmiss Hne]. apply negb_true_iff in Hmiss.
+      assert (Hgt : forall k0 tg, gt C (mkh sl k0 tg (pid v) c mo JNull) = Ok (mo, c)).
+      { intros k0 tg. apply gt_ok; [reflexivity|reflexivity| | |destruct HC as [_ ->]; exact Hmiss].
+        - destruct mo; [discriminate Hne|discriminate].
+        - destruct mo; [discriminate Hne|]. destruct c; [discriminate Hne|discriminate]. }
+      destruct ba; cbn [bytes_kind bytes_tag]; rewrite Hrb; cbn [bind]; rewrite Hgt; cbn [bind snd b]; rewrite nid_mkh; reflexivity.
+  Qed.
+
   Lemma strip_prefix_app p t0 : strip_prefix p (p ++ t0) = Some t0.
   Proof. induction p as [|x p IH]; [reflexivity|]. cbn [app strip_prefix]. rewrite N.eqb_refl. exact IH. Qed.
 
@@ -1242,9 +1367,9 @@ Section Share.
   Lemma dtype_Q id tok : Objs (PDType id tok) -> Q (PDType id tok).
   Proof.
     intros Hv st j st1 H Hb. cbn [get_state] in H. destruct (fresh st) as [tid st0] eqn:Hfr. injection H as <- <-.
-    assert (Hd : tid = d_next st /\ d_next st0 = (d_next st + 1)%Z /\ d_late st0 = d_late st /\ d_members st0 = d_members st).
-    { unfold fresh in Hfr. injection Hfr as <- <-. cbn. auto. }
-    destruct Hd as [-> [Hn0 [Hl0 Hmem0]]]. set (tid := d_next st).
+    assert (Hd : tid = d_next st /\ d_next st0 = (d_next st + 1)%Z /\ d_late st0 = d_late st /\ d_members st0 = d_members st /\ d_uuid st0 = d_uuid st).
+    { unfold fresh in Hfr. injection Hfr as <- <-. cbn. repeat split; reflexivity. }
+    destruct Hd as [-> [Hn0 [Hl0 [Hmem0 Hu0]]]]. set (tid := d_next st).
     set (v := PDType id tok). set (f := npy_name tid). set (b := (MNpy, s "dt:" ++ tok)).
     set (st' := if has_member f st0 then st0 else write_member f b st0).
     pose proof (Oid _ Hv) as Hid. cbn [pid] in Hid.
@@ -1258,22 +1383,23 @@ Section Share.
     assert (Hft : file_table jv = [(key tid, JStr f)]).
     { unfold jv. rewrite ft_node_state by reflexivity. cbn [dget flat_map snd app]. change (pstr_eqb (s "file") (CodecDump.K "content")) with false.
       cbn iota. rewrite Hfti. reflexivity. }
-    assert (Hmok0 : MOK st -> MOK st0) by (intros Hm0; apply (MOK_next st st0); [exact Hmem0|lia|exact Hm0]).
+    assert (Hmok0 : MOK st -> MOK st0) by (intros Hm0; apply (MOK_next st st0); [exact Hmem0|lia|lia|exact Hm0]).
     assert (Hpost : Post st jv st').
     { split; [rewrite <- Hmem0; apply lk_write|]. split.
-      - intros h x Hin. rewrite Hft in Hin. destruct Hin as [Hin|[]]. injection Hin as <- <-. exists tid. split; [reflexivity|]. right.
+      - intros h x Hin. rewrite Hft in Hin. destruct Hin as [Hin|[]]. injection Hin as <- <-. exists tid. split; [reflexivity|]. right. left.
         split; [unfold tid; lia|reflexivity].
-      - intros Hmok. apply (MOK_next st' st'); [reflexivity|lia|]. apply mok_write; [apply Hmok0; exact Hmok|]. right. exists tid. split; [unfold tid; lia|reflexivity]. }
+      - intros Hmok. apply (MOK_next st' st'); [reflexivity|lia|lia|]. apply mok_write; [apply Hmok0; exact Hmok|]. right. exists tid. split; [unfold tid; lia|reflexivity]. }
     split; [exact Hpost|].
     intros fuelq mq slq Hnq Hmq [HpMOK [HpLk HpF0]]. revert fuelq mq slq Hnq Hmq.
     assert (HpF : incl (file_table jv) files) by exact HpF0.
     assert (Hhas : has_member f st0 = false).
     { destruct (has_member f st0) eqn:Hh; [|reflexivity]. exfalso. unfold has_member in Hh. rewrite Hmem0 in Hh.
-      destruct (dget_mem _ _ Hh) as [b0 Hd]. destruct (HpMOK f b0 Hd) as [[w [Hw Ho]]|[i [Hi Hf]]].
+      destruct (dget_mem _ _ Hh) as [b0 Hd]. destruct (HpMOK f b0 Hd) as [[w [Hw Ho]]|[[i [Hi Hf]]|[n [_ Hf]]]].
       - pose proof (Oid _ Hw) as Hwi. destruct w; try discriminate Ho; cbn [ofile pid] in *; injection Ho as Ho _.
         + apply npy_inj in Ho. unfold tid in *. lia.
         + symmetry in Ho. exact (npy_npz _ _ Ho).
-      - apply npy_inj in Hf. unfold tid in *. lia. }
+      - apply npy_inj in Hf. unfold tid in *. lia.
+      - exact (npy_uuid _ _ Hf). }
     assert (Hk1 : dget f (d_members st') = Some b) by (unfold st'; rewrite Hhas; apply dget_write; exact Hhas).
     assert (Hk2 : dget f (c_members C) = Some b) by (apply HpLk; exact Hk1).
     change (forall fuel m sl, (need v <= fuel)%nat -> memo_lt m (d_next st) ->
@@ -1307,8 +1433,8 @@ Section Share.
       assert (Hinn : construct_val C files R (S cf) inner = Ok (PArr tid false (CodecDump.K "numpy") (CodecDump.K "ndarray") (s "dt:" ++ tok))).
       { unfold inner. cbn [construct_val]. unfold cbody, hin, set_aux, mkh. cbn [h_kind h_aux h_id h_module h_class h_slot h_tag h_extra].
         change (jstr_eqb (JStr (GetTree.K "numpy")) (s "numpy")) with true. cbn iota.
-        unfold read_blob. cbn [h_id]. rewrite (in_files_lookup tid f) by (apply HpF; rewrite Hft; left; reflexivity).
-        rewrite Hk2. cbn [bind jstr snd b].
+        rewrite (read_blob_ok _ tid f b) by (try reflexivity; try exact Hk2; apply HpF; rewrite Hft; left; reflexivity).
+        cbn [bind jstr snd b].
         change (pstr_eqb (qual (CodecDump.K "numpy") (CodecDump.K "ndarray")) (s "numpy.ndarray")) with true. cbn iota.
         unfold nid, key. cbn [h_id]. rewrite key_div. reflexivity. }
       generalize dependent inner. intros inn Hinn.
@@ -1534,11 +1660,235 @@ Section Share.
     destruct x; try (subst c; reflexivity). destruct sc; try (subst c; reflexivity). reflexivity.
   Qed.
 
+  Lemma minR_steps m ns m1 R : minR m R -> (forall x, In x ns -> sub x R) -> grow m ns m1 -> minR m1 R.
+  Proof.
+    intros Hm Hs Hg h Hh. destruct (Hg h Hh) as [H|H]; [auto|]. apply in_flat_map in H. destruct H as [x [Hx Hh']].
+    eapply ids_sub; [apply Hs; exact Hx|exact Hh'].
+  Qed.
+
+  Definition shape_val (n : Z) (st : dst) : pval :=
+    PSeq QTuple (d_next st) (s "builtins") (s "tuple") false
+      [PScalar (if is_small_int n then small_int_base + n else d_next st + 1)%Z (SInt n)].
+
+  Lemma shape_node n st1 shj st2 :
+    shape_state [n] st1 = (shj, st2) -> scalar_rt_ok (SInt n) = true ->
+    (is_small_int n = true -> Objs (PScalar (small_int_base + n) (SInt n))) -> (base <= d_next st1)%Z -> (0 < base)%Z ->
+    (d_next st1 < d_next st2)%Z /\ d_late st2 = d_late st1 /\ d_members st2 = d_members st1 /\ d_uuid st2 = d_uuid st1
+    /\ file_table shj = [] /\
+    forall fuel m1 sl, (2 <= fuel)%nat -> memo_lt m1 (d_next st1) -> MOK st2 -> lk_incl (d_members st2) (c_members C) ->
+      exists shn m2, get_tree fuel E proto [] sl m1 shj = Ok (shn, m2)
+        /\ node_slot shn = sl /\ notleaf shn = true /\ mono m1 m2 /\ grow m1 [shn] m2 /\ memo_lt m2 (d_next st2)
+        /\ Spec shn (shape_val n st1) m1 /\ allok shn m2.
+  Proof.
+    intros Hsh Hrt Hio Hb Hb0. unfold shape_val. destruct (is_small_int n) eqn:Hsm.
+    - (* len(obj) is a cached small int *)
+      rewrite (shape_state_small n st1 Hsm) in Hsh. specialize (Hio eq_refl).
+      set (i := (small_int_base + n)%Z) in *.
+      set (st2' := snd (fresh st1)) in *.
+      assert (Hd2 : d_next st2' = (d_next st1 + 1)%Z) by reflexivity.
+      match type of Hsh with (?a, _) = _ => set (shj' := a) in Hsh end.
+      assert (Hft : file_table shj' = []) by reflexivity.
+      injection Hsh as <- <-. split; [lia|]. split; [reflexivity|]. split; [reflexivity|]. split; [reflexivity|]. split; [exact Hft|].
+      unfold shj'. clear Hft shj'. set (st2 := st2') in *.
+      intros fuel m1 sl Hfuel Hlt Hmok2 HpLk. destruct fuel as [|fuel]; [lia|].
+      set (kt := PSeq QTuple (d_next st1) (s "builtins") (s "tuple") false [PScalar i (SInt n)]).
+      assert (HQi : Forall Q [PScalar i (SInt n)]) by (constructor; [apply scalar_Q; assumption|constructor]).
+      rewrite (gt_step fuel sl m1 _ _ _ _ (d_next st1) (s "_general.TupleNode") KTuple); [|reflexivity|cbn; tauto|reflexivity].
+      assert (Hmem2 : memo_mem (key (d_next st1)) m1 = false) by (apply (memo_lt_fresh _ (d_next st1)); [exact Hlt|lia]).
+      rewrite Hmem2.
+      assert (Hx1 : Objs kt \/ (base <= d_next st1)%Z) by (right; lia).
+      assert (Hx2 : (0 < d_next st1)%Z) by lia.
+      assert (Hx3 : (base <= d_next st2)%Z) by lia.
+      assert (Hst : states_of (fun x s0 => get_state D x s0) [PScalar i (SInt n)] st2 = Ok ([json_state (show_Z n) i], st2)) by reflexivity.
+      destruct (seq_node QTuple (d_next st1) (s "tuple") [PScalar i (SInt n)] st2 [json_state (show_Z n) i] st2 Hx1 Hx2 eq_refl HQi Hst Hx3
+                  fuel m1 sl (d_next st2)) as [shn [m2 [Hkt [Hksl [Hknl [Hkmo [Hkgr [Hklt [Hksp Hkal]]]]]]]]].
+      { cbn [need max_map]. lia. }
+      { eapply memo_lt_le; [|exact Hlt]. lia. }
+      { lia. }
+      { lia. }
+      { exact Hmem2. }
+      { split; [exact Hmok2|]. split; [exact HpLk|]. intros j0 [<-|[]] e He. destruct He. }
+      exists shn, m2. split; [exact Hkt|]. auto 10.
+    - (* len(obj) > 256: a fresh int object *)
+      clear Hio. unfold shape_state, fresh in Hsh. cbn [shape_items] in Hsh. unfold int_obj, fresh in Hsh. rewrite Hsm in Hsh. cbn [d_next] in Hsh.
+      set (tid := d_next st1) in *. set (i := (tid + 1)%Z) in *.
+      injection Hsh as <- <-. cbn [d_next d_late d_members d_uuid].
+      split; [lia|]. split; [reflexivity|]. split; [reflexivity|]. split; [reflexivity|]. split; [reflexivity|].
+      intros fuel m1 sl Hfuel Hlt _ _. destruct fuel as [|[|fuel]]; try lia.
+      set (t0 := show_Z n).
+      rewrite (gt_step (S fuel) sl m1 _ _ _ _ tid (s "_general.TupleNode") KTuple); [|reflexivity|cbn; tauto|reflexivity].
+      assert (Hmem2 : memo_mem (key tid) m1 = false) by (apply (memo_lt_fresh _ tid); [exact Hlt|lia]).
+      rewrite Hmem2.
+      set (jt := node_state (CodecDump.K "tuple") (CodecDump.K "builtins") (CodecDump.K "TupleNode")
+                   [(CodecDump.K "content", JArr [json_state t0 i])] tid).
+      assert (Hbd : forall rec, build E rec sl [] (s "_general.TupleNode") KTuple m1 jt
+              = do (h, m0) <- node_init sl KTuple (s "_general.TupleNode") [] true m1 jt JNull;
+                do (c, m') <- rec [] (SElem (GetTree.K "content")) m0 (json_state t0 i);
+                Ok (Node h [c], m')).
+      { intros rec. unfold build. destruct (node_init _ _ _ _ _ _ _ _) as [[h m0]|]; [|reflexivity]. cbn [bind].
+        change (jindex jt (GetTree.K "content")) with (Ok (A:=json) (JArr [json_state t0 i])). cbn [bind jiter sub_list].
+        destruct (rec [] (SElem (GetTree.K "content")) m0 (json_state t0 i)) as [[c m']|]; reflexivity. }
+      rewrite Hbd. unfold jt at 1. rewrite init_eq by (try reflexivity; unfold tid; lia). cbn [bind]. clear Hbd.
+      unfold json_state at 1.
+      rewrite (gt_step fuel (SElem (GetTree.K "content")) (key tid :: m1) _ _ _ _ i (s "_general.JsonNode") KJson); [|reflexivity|cbn; tauto|reflexivity].
+      assert (Hm0 : memo_lt (key tid :: m1) (tid + 1)) by (apply memo_lt_cons; [lia|]; eapply memo_lt_le; [|exact Hlt]; unfold tid; lia).
+      rewrite (memo_lt_fresh _ (tid + 1) i Hm0 ltac:(unfold i; lia)).
+      set (ji := node_state (CodecDump.K "str") (CodecDump.K "builtins") (CodecDump.K "JsonNode")
+                   [(CodecDump.K "content", JStr t0); (CodecDump.K "is_json", JBool true)] i).
+      assert (Hbi : forall rec, build E rec (SElem (GetTree.K "content")) [] (s "_general.JsonNode") KJson (key tid :: m1) ji
+              = do (h, m0) <- node_init (SElem (GetTree.K "content")) KJson (s "_general.JsonNode") [] true (key tid :: m1) ji JNull;
+                Ok (Node (set_aux h (JStr t0)) [], m0)).
+      { intros rec. unfold build. destruct (node_init _ _ _ _ _ _ _ _) as [[h m0]|]; reflexivity. }
+      rewrite Hbi. unfold ji at 1. rewrite init_eq by (try reflexivity; unfold i, tid; lia). cbn [bind]. clear Hbi.
+      eexists. eexists. split; [reflexivity|].
+      set (hdT := mkh sl KTuple (s "_general.TupleNode") tid (CodecDump.K "tuple") (CodecDump.K "builtins") JNull).
+      set (hdI := set_aux (mkh (SElem (GetTree.K "content")) KJson (s "_general.JsonNode") i (CodecDump.K "str") (CodecDump.K "builtins") JNull) (JStr t0)).
+      set (kt := PSeq QTuple tid (s "builtins") (s "tuple") false [PScalar i (SInt n)]).
+      assert (Hsp : SpecN (Node hdT [Node hdI []]) kt m1).
+      { intros R _ _ _ cf Hcf. cbn [need max_map kt] in Hcf. destruct cf as [|[|cf]]; try lia.
+        assert (Hinn : construct_val C files R (S cf) (Node hdI []) = Ok (PScalar i (SInt n))).
+        { cbn [construct_val]. unfold cbody, hdI, set_aux, mkh. cbn [h_kind h_aux]. unfold scalar_rt_ok in Hrt. cbn [json_text] in Hrt. fold t0 in Hrt.
+          destruct (json_parse t0) as [sc'|]; [|discriminate Hrt]. cbn [bind].
+          destruct sc'; try discriminate Hrt. cbn [scalar_eqb] in Hrt. apply Z.eqb_eq in Hrt. subst z.
+          unfold nid, key. cbn [h_id]. rewrite key_div. reflexivity. }
+        generalize dependent (Node hdI []). intros inn Hinn.
+        change (construct_val C files R (S (S cf)) (Node hdT [inn])) with (cbody C files hdT [inn] (construct_val C files R (S cf))).
+        unfold cbody, hdT, mkh. cbn [h_kind]. fold (mkh sl KTuple (s "_general.TupleNode") tid (CodecDump.K "tuple") (CodecDump.K "builtins") JNull). fold hdT.
+        assert (Hgt : gt C hdT = Ok (s "builtins", s "tuple")).
+        { apply gt_ok; [reflexivity|reflexivity|apply lit_ne; discriminate|apply lit_ne; discriminate|apply not_missing; cbn; tauto]. }
+        rewrite Hgt. cbn [bind].
+        replace (strip_empty LEmptyList [inn]) with [inn].
+        2:{ cbn [strip_empty]. destruct inn as [? ?|? ?|? l0]; try reflexivity. cbn [construct_val] in Hinn. discriminate Hinn. }
+        cbn [mapM]. rewrite Hinn. cbn [bind].
+        pose proof HC as [HCn _]. pose proof Hsane as Hs'. unfold facts_sane in Hs'. apply andb_prop in Hs'. destruct Hs' as [Hnt _].
+        apply negb_true_iff in Hnt. change (qual (s "builtins") (s "tuple")) with (s "builtins.tuple"). rewrite HCn, Hnt.
+        change (pstr_eqb (s "builtins.tuple") (s "builtins.tuple")) with true. cbn iota.
+        unfold hdT. rewrite nid_mkh. reflexivity. }
+      split; [reflexivity|]. split; [reflexivity|]. split; [eapply mono_trans; apply mono_cons|]. split.
+      { intros h Hh. cbn [memo_mem] in Hh. apply orb_prop in Hh. destruct Hh as [Hh|Hh].
+        - right. apply hkey_eqb_eq in Hh. subst h. cbn. right. left. reflexivity.
+        - apply orb_prop in Hh. destruct Hh as [Hh|Hh]; [|left; exact Hh]. right. apply hkey_eqb_eq in Hh. subst h. cbn. left. reflexivity. }
+      split.
+      { apply memo_lt_cons; [lia|]. apply memo_lt_cons; [unfold i; lia|]. eapply memo_lt_le; [|exact Hlt]. unfold i, tid. lia. }
+      split; [apply Spec_of_SpecN; exact Hsp|].
+      intros t1 hd0 subs0 hk Hs Ht Hi. apply sub_node_inv in Hs. destruct Hs as [->|[x [[<-|[]] Hs]]].
+      + injection Ht as <- <-. cbn in Hi. injection Hi as <-. left. exists tid. split; [reflexivity|exact Hb].
+      + apply sub_node_inv in Hs. destruct Hs as [->|[y [[] Hs]]].
+        injection Ht as <- <-. cbn in Hi. injection Hi as <-. left. exists i. split; [reflexivity|unfold i; lia].
+  Qed.
+
+  (* ---- rank-1 object arrays: the cells travel as the content of the list tolist() creates (only its content is kept),
+     the shape as a fresh tuple around len(obj) ---- *)
+  Lemma objarr_Q id cells :
+    let n := Z.of_nat (length cells) in
+    Objs (PObjArr id (s "numpy") (s "ndarray") [n] cells) ->
+    scalar_rt_ok (SInt n) = true -> (is_small_int n = true -> Objs (PScalar (small_int_base + n) (SInt n))) ->
+    Forall Q cells -> Q (PObjArr id (s "numpy") (s "ndarray") [n] cells).
+  Proof.
+    intros n Hv Hrt Hio HQ st j st3 H Hb. cbn [get_state map] in H.
+    replace (Z.to_nat n) with (length cells) in H by (unfold n; rewrite Nat2Z.id; reflexivity).
+    rewrite (tolist_rank1 (fun x s0 => get_state D x s0)) in H.
+    destruct (fresh st) as [lid sta] eqn:Hfr.
+    destruct (states_of _ cells sta) as [[js st1]|] eqn:E0; [|discriminate H]. cbn [bind] in H.
+    change (jindex (list_state js lid) (CodecDump.K "content")) with (Ok (A:=json) (JArr js)) in H. cbn [bind] in H.
+    destruct (shape_state [n] st1) as [shj st2] eqn:Esh.
+    pose proof (Oid _ Hv) as Hid. cbn [pid] in Hid.
+    set (v := PObjArr id (s "numpy") (s "ndarray") [n] cells) in *.
+    match type of H with Ok (?a, _) = _ => set (jv := a) in H end.
+    injection H as <- <-.
+    assert (Hd : lid = d_next st /\ d_next sta = (d_next st + 1)%Z /\ d_late sta = d_late st /\ d_members sta = d_members st /\ d_uuid sta = d_uuid st).
+    { unfold fresh in Hfr. injection Hfr as <- <-. cbn. repeat split; reflexivity. }
+    destruct Hd as [-> [Hna [Hla [Hma Hua]]]].
+    destruct (states_share cells HQ _ _ _ E0 ltac:(lia)) as [Hlate1 [Hnext1 [[Hlk1 [Hft1 Hmok1]] HL]]].
+    destruct (shape_node n st1 shj st2 Esh Hrt Hio ltac:(lia) ltac:(lia)) as [Hn2 [Hl2 [Hm2 [Hu2 [Hfts Hshape]]]]].
+    split; [congruence|]. split; [lia|].
+    assert (Hftj : file_table jv = flat_map file_table js).
+    { unfold jv. rewrite ft_node_state by reflexivity. cbn [dget flat_map snd app].
+      change (pstr_eqb (s "file") (CodecDump.K "content")) with false. change (pstr_eqb (s "file") (CodecDump.K "type")) with false.
+      change (pstr_eqb (s "file") (CodecDump.K "shape")) with false. cbn iota. rewrite file_table_arr.
+      rewrite Hfts. cbn [file_table app]. rewrite !app_nil_r. reflexivity. }
+    assert (Hmoka : MOK st -> MOK sta) by (intros Hm0; apply (MOK_next st sta); [exact Hma|lia|lia|exact Hm0]).
+    assert (Hmok2 : MOK st1 -> MOK st2) by (intros Hm0; apply (MOK_next st1 st2); [exact Hm2|lia|lia|exact Hm0]).
+    assert (Hpost : Post st jv st2).
+    { split; [rewrite Hm2, <- Hma; exact Hlk1|]. split; [|auto]. rewrite Hm2.
+      intros h x Hin. rewrite Hftj in Hin. apply in_flat_map in Hin. destruct Hin as [j0 [Hj0 Hin]].
+      exact (FTd_mono _ _ _ _ _ Hmoka (lk_refl _) (Hft1 j0 Hj0) h x Hin). }
+    split; [exact Hpost|].
+    intros fuelq mq slq Hnq Hmq [HpMOK [HpLk HpF0]]. revert fuelq mq slq Hnq Hmq.
+    assert (HpF : incl (file_table jv) files) by exact HpF0. rewrite Hm2 in HpLk.
+    unfold jv. change id with (pid v).
+    apply (Q_wrap v st st2 _ _ _ _ (s "_numpy.NdArrayNode") KNdArray); try assumption; try reflexivity; try (cbn [pid v]; lia); try (cbn; tauto).
+    intros fuel m sl Hn Hm Hmem. unfold v in Hn. cbn [need] in Hn. fold v in Hn. destruct fuel as [|fuel]; [lia|]. cbn [pid v]. fold jv.
+    assert (Hbd : forall rec, build E rec sl [] (s "_numpy.NdArrayNode") KNdArray m jv
+            = do (h, m0) <- node_init sl KNdArray (s "_numpy.NdArrayNode") [] true m jv JNull;
+              do (ns, m1) <- sub_list rec [] (GetTree.K "content") m0 js;
+              do (shn, m2) <- rec [] (SOne (GetTree.K "shape")) m1 shj;
+              Ok (Node (set_aux h (JStr (GetTree.K "json"))) (or_empty (GetTree.K "content") LEmptyList ns ++ [shn]), m2)).
+    { intros rec. unfold build. destruct (node_init _ _ _ _ _ _ _ _) as [[h m0]|]; reflexivity. }
+    rewrite Hbd. unfold jv at 1. rewrite init_eq by (try reflexivity; lia). cbn [bind]. clear Hbd.
+    (* the cells *)
+    destruct (HL (S fuel) (key id :: m) (GetTree.K "content")) as [ns [m1 [Hsub [Hsl [Hlen [Hmo [Hgr [Hlt [Hls Hal]]]]]]]]].
+    { intros x Hx. pose proof (max_map_in (fun x => need x) x cells Hx). cbn beta in *. lia. }
+    { apply memo_lt_cons; [lia|]. eapply memo_lt_le; [|exact Hm]. lia. }
+    { split; [apply Hmoka; exact HpMOK|]. split; [exact HpLk|]. intros j0 Hj0 e He. apply HpF. rewrite Hftj. apply in_flat_map. exists j0. auto. }
+    rewrite Hsub. cbn [bind].
+    (* the shape tuple, an object the dumper creates *)
+    set (kt := shape_val n st1).
+    destruct (Hshape (S fuel) m1 (SOne (GetTree.K "shape"))) as [shn [m2 [Hkt [Hksl [Hknl [Hkmo [Hkgr [Hklt [Hksp Hkal]]]]]]]]].
+    { lia. }
+    { exact Hlt. }
+    { apply Hmok2; apply Hmok1; apply Hmoka; exact HpMOK. }
+    { rewrite Hm2; exact HpLk. }
+    rewrite Hkt. cbn [bind]. clear Hkt. eexists. eexists. split; [reflexivity|].
+    set (hd := set_aux (mkh sl KNdArray (s "_numpy.NdArrayNode") id (s "ndarray") (s "numpy") JNull) (JStr (GetTree.K "json"))).
+    set (subs := or_empty (GetTree.K "content") LEmptyList ns ++ [shn]).
+    assert (Hin : forall x, In x ns -> In x subs).
+    { intros x Hx. unfold subs. apply in_or_app. left. destruct ns; [destruct Hx|exact Hx]. }
+    assert (Hins : In shn subs) by (unfold subs; apply in_or_app; right; left; reflexivity).
+    assert (Hm0R : forall R, sub (Node hd subs) R -> minR m R -> minR (key id :: m) R).
+    { intros R Hs HmR h Hh. cbn [memo_mem] in Hh. apply orb_prop in Hh. destruct Hh as [Hh|Hh]; [|auto].
+      apply hkey_eqb_eq in Hh. subst h. eapply ids_sub; [exact Hs|]. cbn [ids]. unfold own_ids, hd. cbn [set_aux mkh h_id]. left. reflexivity. }
+    assert (Hsp : SpecN (Node hd subs) v m).
+    { intros R Hs HmR Hg cf Hcf. destruct cf as [|cf]; [pose proof (need_pos v); lia|]. cbn [construct_val].
+      unfold v in Hcf. cbn [need] in Hcf. fold v in Hcf.
+      assert (Hkv : construct_val C files R cf shn = Ok kt).
+      { apply (Hksp R); [eapply sub_child; [exact Hs|exact Hins]| | |unfold kt, shape_val; cbn [need max_map]; lia].
+        - eapply minR_steps; [apply Hm0R; eassumption| |exact Hgr]. intros x Hx. eapply sub_child; [exact Hs|apply Hin; exact Hx].
+        - eapply HG_mono; [|exact Hg]. unfold kt, shape_val, v. cbn [size sum_map]. lia. }
+      assert (Hmap : mapM (construct_val C files R cf) ns = Ok cells).
+      { apply mapM_den.
+        - apply (Hls R (size v)).
+          + intros x Hx. eapply sub_child; [exact Hs|apply Hin; exact Hx].
+          + apply Hm0R; assumption.
+          + exact Hg.
+          + intros w Hw. pose proof (sum_map_in (fun x => size x) w cells Hw). unfold v. cbn [size]. cbn beta in *. lia.
+        - intros w Hw. pose proof (max_map_in (fun x => need x) w cells Hw). cbn beta in *. lia. }
+      unfold cbody, hd, set_aux, mkh. cbn [h_kind h_aux h_id h_module h_class h_slot h_tag h_extra].
+      change (jstr_eqb (JStr (GetTree.K "json")) (s "numpy")) with false. cbn iota.
+      unfold subs. rewrite rev_unit, Hkv. unfold kt, shape_val. cbn [bind as_items]. rewrite rev_involutive, (strip_or_empty _ _ Hsl), Hmap. cbn [bind].
+      unfold nid, key. cbn [h_id]. rewrite key_div. reflexivity. }
+    unfold Res. cbn [node_slot notleaf]. repeat split.
+    - eapply mono_trans; [apply mono_cons|]. eapply mono_trans; eauto.
+    - intros h Hh. cbn [flat_map ids]. rewrite app_nil_r. destruct (Hkgr h Hh) as [H|H].
+      + destruct (Hgr h H) as [H'|H'].
+        * cbn [memo_mem] in H'. apply orb_prop in H'. destruct H' as [H'|H']; [|left; exact H'].
+          apply hkey_eqb_eq in H'. subst h. right. apply in_or_app. left. left. reflexivity.
+        * right. apply in_or_app. right. apply in_flat_map in H'. destruct H' as [x [Hx Hh']]. apply in_flat_map. exists x.
+          split; [apply Hin; exact Hx|exact Hh'].
+      + right. apply in_or_app. right. cbn [flat_map] in H. rewrite app_nil_r in H. apply in_flat_map. exists shn. split; [exact Hins|exact H].
+    - exact Hklt.
+    - apply Spec_of_SpecN. exact Hsp.
+    - apply (allok_node hd subs v m); [reflexivity|left; exact Hv|exact Hsp|eapply mono_trans; [apply mono_cons|eapply mono_trans; eauto]|].
+      intros x Hx. unfold subs in Hx. apply in_app_or in Hx. destruct Hx as [Hx|[<-|[]]]; [|exact Hkal].
+      destruct ns as [|n1 ns']; [destruct Hx as [<-|[]]; apply allok_leaf|]. eapply allok_mono; [exact Hkmo|]. apply Hal. exact Hx.
+  Qed.
+
   (* ---- the proved fragment, with the objects of the value registered in Objs ---- *)
   Fixpoint vok (v : pval) {struct v} : Prop :=
     Objs v /\
     match v with
     | PScalar _ sc => scalar_rt_ok sc = true
+    | PBytes _ _ mo c _ => resolvable F mo c = true
     | PSeq q _ mo c nt l =>
         mo = s "builtins" /\ nt = false /\ seq_cls q c
         /\ (fix all (l : list pval) : Prop := match l with [] => True | x :: l' => vok x /\ all l' end) l
@@ -1552,6 +1902,13 @@ Section Share.
     | PFunc _ mo c | PType _ mo c => resolvable F mo c = true
     | POpFunc _ c a => resolvable F (s "operator") c = true /\ opfunc_attrs_ok c a /\ vok a
     | PArr _ gen mo c _ => arr_cls_ok gen mo c
+    | PObjArr _ mo c shape cells =>
+        (* rank 1; if len(obj) is a cached small int it is an object of the value's universe *)
+        mo = s "numpy" /\ c = s "ndarray" /\ shape = [Z.of_nat (length cells)]
+        /\ scalar_rt_ok (SInt (Z.of_nat (length cells))) = true
+        /\ (is_small_int (Z.of_nat (length cells)) = true ->
+            Objs (PScalar (small_int_base + Z.of_nat (length cells)) (SInt (Z.of_nat (length cells)))))
+        /\ (fix all (l : list pval) : Prop := match l with [] => True | x :: l' => vok x /\ all l' end) cells
     | PSparse _ _ _ _ | PDType _ _ => True
     | PMasked _ mo c d k => mo = s "numpy.ma" /\ c = s "MaskedArray" /\ vok d /\ vok k
     | PRandState _ mo c x => resolvable F mo c = true /\ vok x
@@ -1577,6 +1934,7 @@ Section Share.
     apply (pval_ind' (fun v => vok v -> Q v)).
     - intros v Hl Hv. destruct v; try discriminate Hl; cbn [vok] in Hv; destruct Hv as [Ho Hv]; try contradiction.
       + apply scalar_Q; assumption.
+      + apply bytes_Q; assumption.
       + destruct Hv as [Ha [Hb Hc0]]. apply slice_Q; assumption.
       + apply arr_Q; assumption.
       + apply dtype_Q; assumption.
@@ -1589,7 +1947,8 @@ Section Share.
       apply Forall_map_snd. eapply Forall_imp2; [exact IH|apply vok_vals; exact Hvals].
     - intros id mo c f l IHf IH [Ho [-> [-> [Hi [Hf Hvals]]]]]. apply defdict_Q; try assumption; [apply IHf; exact Hf|].
       apply Forall_map_snd. eapply Forall_imp2; [exact IH|apply vok_vals; exact Hvals].
-    - intros; cbn [vok] in *; tauto.
+    - intros id mo c sh l IH [Ho [-> [-> [-> [Hrt [Hio Hall]]]]]]. apply objarr_Q; try assumption.
+      eapply Forall_imp2; [exact IH|apply vok_all; exact Hall].
     - intros id mo c d k IHd IHk [Ho [-> [-> [Hd Hk0]]]]. apply masked_Q; auto.
     - intros id mo c x IHx [Ho [Hr Hx]]. apply randstate_Q; auto.
     - intros id mo c x y IHx IHy [Ho [Hr [Hx Hy]]]. apply randgen_Q; auto.
@@ -1623,15 +1982,23 @@ Section Share.
     apply (Hsp R); [apply sub_refl|intros h Hh; discriminate Hh|apply HGall].
   Qed.
 
-  (* one file name per id in the file table *)
-  Lemma FTd_one j : FTd j -> forall h x1 x2, In (h, x1) (file_table j) -> In (h, x2) (file_table j) -> x1 = x2.
+  (* the names recorded in the file table for one id all name the same content *)
+  Lemma FTd_one (P : Prop) j : P -> FTd P (c_members C) j ->
+    forall h x1 x2, In (h, x1) (file_table j) -> In (h, x2) (file_table j) -> fblob x1 = fblob x2.
   Proof.
-    intros H h x1 x2 H1 H2. destruct (H h x1 H1) as [i1 [Hk1 A1]]. destruct (H h x2 H2) as [i2 [Hk2 A2]].
+    intros HP H h x1 x2 H1 H2. destruct (H h x1 H1) as [i1 [Hk1 A1]]. destruct (H h x2 H2) as [i2 [Hk2 A2]].
     assert (i1 = i2) by (apply key_inj; congruence). subst i2.
-    destruct A1 as [[w1 [f1 [b1 [Hw1 [Hp1 [Ho1 ->]]]]]]|[Hb1 ->]]; destruct A2 as [[w2 [f2 [b2 [Hw2 [Hp2 [Ho2 ->]]]]]]|[Hb2 ->]].
+    destruct A1 as [[w1 [f1 [b1 [Hw1 [Hp1 [Ho1 ->]]]]]]|[[Hb1 ->]|[w1 [t1 [n1 [Hw1 [Hp1 [Ho1 [-> Hd1]]]]]]]]];
+      destruct A2 as [[w2 [f2 [b2 [Hw2 [Hp2 [Ho2 ->]]]]]]|[[Hb2 ->]|[w2 [t2 [n2 [Hw2 [Hp2 [Ho2 [-> Hd2]]]]]]]]].
     - assert (w1 = w2) by (apply Ofun; congruence). subst w2. congruence.
     - pose proof (Oid _ Hw1). lia.
+    - assert (w1 = w2) by (apply Ofun; congruence). subst w2. destruct w1; discriminate.
     - pose proof (Oid _ Hw2). lia.
     - reflexivity.
+    - pose proof (Oid _ Hw2). lia.
+    - assert (w1 = w2) by (apply Ofun; congruence). subst w2. destruct w1; discriminate.
+    - pose proof (Oid _ Hw1). lia.
+    - assert (w1 = w2) by (apply Ofun; congruence). subst w2. assert (t1 = t2) by congruence. subst t2.
+      unfold fblob. rewrite (Hd1 HP), (Hd2 HP). reflexivity.
   Qed.
 End Share.
